@@ -883,7 +883,10 @@ class Models:
         if name == "reversed":
             seq = ex.to_iter(args[0], lineno)
             conc = list(reversed(seq.concrete)) if seq.concrete is not None else None
-            return IterV(seq.n, lambda i: seq.elem(seq.n - 1 - i), concrete=conc)
+            rv = IterV(seq.n, lambda i: seq.elem(seq.n - 1 - i), concrete=conc)
+            if isinstance(args[0], Ref) and isinstance(st.heap[args[0].id], ListObj) and not st.heap[args[0].id].is_empty_literal:
+                rv.elem_type = st.heap[args[0].id].t  # so that list(reversed(l)) is typed like l
+            return rv
         if name == "tuple":
             if not args:
                 return ()
